@@ -203,7 +203,12 @@ func VH_C03_independent() {
 	}
 	tqs.GetByName("a").Start()
 	tqs.GetByName("b").Start()
-	zz.WaitUntil(func() bool { return handledB == nb && runningB == 0 })
+	if zz.Bool("started_twice") {
+		// StartMain() followed by Start(): a started queue ignores further starts
+		tqs.GetByName("b").Start()
+	}
+	zz.WaitUntil(func() bool { return handledB >= nb && runningB == 0 })
+	zz.Assert(handledB == nb, "each_task_handled_once")
 	for i := 0; i < nb; i++ {
 		zz.Assert(orderB[i] == "b"+strconv.Itoa(i), "tasks_run_in_queue_order")
 	}
